@@ -183,6 +183,12 @@ _prove_plain = prove
 
 def prove(hyps, goal, timeout_ms=None, strings=False):
     st, model, backend, secs, txt = _prove_plain(hyps, goal, timeout_ms, strings)
+    if st == 'undecided' and timeout_ms is None and 'timeout' in str(txt).lower() and os.environ.get('VERIF_NO_RETRY') != '1':
+        # default-budget callers (line obligations): a verdict must not flip because the machine is busy - one more try with three
+        # times the budget before the obligation is given up as undecided (callers that pass their own budget retry themselves)
+        st2, model2, backend2, secs2, txt2 = _prove_plain(hyps, goal, Z3_TIMEOUT_MS * 3, strings)
+        if st2 != 'undecided':
+            return st2, model2, backend2, secs + secs2, txt2
     if st == 'undecided':
         try:
             ab = abstract_strings(list(hyps) + [z3.Not(goal)])
